@@ -10,7 +10,7 @@ import bpexport
 import facto_ast as fa
 import harness as H
 
-EXTRA = "Valid.CheckC01 Facto.IO"
+EXTRA = "Valid.CheckC01 Facto.IO Valid.CellCheck"
 BOUNDARY = [0, 1, -1, 2, -2, 3, 5, 7, -7, 2147483647, -2147483648, 65536, -65536, 46341, 1000]
 
 
@@ -46,7 +46,11 @@ def find_entity(bpj, proto, x, y):
     return found
 
 
-def case_for(cid, decls, bpj, ideal=None, entities=None, c20=False):
+def find_desc(bpj, needle):
+    return [i for i, e in enumerate(bpexport.entities_of(bpj)) if needle in (e.get("player_description") or "")]
+
+
+def case_for(cid, decls, bpj, ideal=None, entities=None, c20=False, mems=None):
     """returns (defs text, expr text, meta) or raises bpexport.Unsupported.
     ideal: harvested logical edges -> check the idealised private-network circuit instead"""
     names = [d[1] for d in decls]
@@ -100,6 +104,7 @@ def case_for(cid, decls, bpj, ideal=None, entities=None, c20=False):
         + f"Definition rs_{cid} : list ent_req := [{'; '.join(rs)}].\n"
     )
     expr = f"ok (check_prog bp_{cid} {n + 2}%nat ds_{cid} qs_{cid} rs_{cid})"
+
     if c20:
         anch = [names.index(v) for v, _, _ in ex.anchors() if v in names]
         meta_c20 = f"check_c20 ds_{cid} [{'; '.join(str(a) + '%nat' for a in anch)}]"
@@ -107,6 +112,31 @@ def case_for(cid, decls, bpj, ideal=None, entities=None, c20=False):
         meta_c20 = None
     meta = {"outputs": outs, "exposed": sorted(exposed), "entities": n, "n_inputs": len(input_vars),
             "signals": dict(ex.sig.ids), "entity_problems": ent_problems, "c20_expr": meta_c20}
+    mem_problems = []
+    if mems:
+        cut, cells = [], []
+        for m in mems.values():
+            if m.get("kind", "gated") != "gated":
+                continue
+            w = find_desc(bpj, f"mem:mem_{m['name']} (memory: write_gate)")
+            h = find_desc(bpj, f"mem:mem_{m['name']} (memory: hold_gate)")
+            if len(w) != 1 or len(h) != 1:
+                mem_problems.append({"memory": m["name"], "write_gates": len(w), "hold_gates": len(h)})
+                continue
+            vw, vh = input_vars[decls[m["iw"]][1]], input_vars[decls[m["ih"]][1]]
+            sg = ex.sig.p(m["sig"])
+            cut.append(f"({w[0]}%nat, [({sg}, {vw}%positive)])")
+            cut.append(f"({h[0]}%nat, [({sg}, {vh}%positive)])")
+            when = m["when"] if m["when"] is not None else ("int", 1)
+            cells.append(
+                f"{{| g_w := {w[0]}%nat; g_h := {h[0]}%nat; g_sig := {sg}; g_vw := {vw}%positive; g_vh := {vh}%positive; "
+                f"g_data := {fa.coq_expr(m['data'], ex.sig)}; g_when := {fa.coq_expr(when, ex.sig)} |}}"
+            )
+        defs += (f"Definition cut_{cid} : cut_t := [{'; '.join(cut)}].\n"
+                 f"Definition cells_{cid} : list cell_req := [{'; '.join(cells)}].\n")
+        expr = f"ok (check_cells bp_{cid} cut_{cid} {n + 2}%nat ds_{cid} qs_{cid} rs_{cid} cells_{cid})"
+        meta["mem_problems"] = mem_problems
+        meta["cells"] = len(cells)
     return defs, expr, meta
 
 
